@@ -25,6 +25,12 @@ FAULTS = [
     ("missing-table", ".table 'no_such_file_zq.tbl'"),
     ("missing-ips", ".include_ips 'no_such_file_zq.ips', 0"),
     ("symbol-chain", "zq_a = zq_b"),
+    ("branch-range+128", "lzq1:\nbra lzq1 + 130"),
+    ("branch-range-129", "lzq2:\nbra lzq2 - 127"),
+    ("undefined-macro-in-if", ".if 1 {\nundefined_macro_zq(1)\n}"),
+    ("undefined-const-in-if", ".if 1 {\nzq_c := undefined_symbol_zq\n}"),
+    ("undefined-block-in-if", ".if 1 {\n{{undefined_block_zq}}\n} else {\nnop\n}"),
+    ("undefined-macro-in-loop", ".for zq_i := 0, 2 {\nundefined_macro_zq(zq_i)\n}"),
 ]
 
 
@@ -54,9 +60,15 @@ def run(ctx):
             pr = gen_program.generate(rng, run_.drv, rom="low_rom", features={"incbin": False})
             lines = pr["src"].rstrip("\n").split("\n")
             cases.append((pr["src"], "none"))
-            for _ in range(3 if tier == "quick" else 6):
+            for _ in range(6 if tier == "quick" else 8):
                 kind, stmt = rng.choice(FAULTS)
-                pos = rng.randrange(0, len(lines) + 1)
+                # only at top-level positions (outside every block / macro body), so that the statement is certainly reached
+                depth, tops = 0, [0]
+                for li, l in enumerate(lines):
+                    depth += l.count("{") - l.count("}")
+                    if depth == 0:
+                        tops.append(li + 1)
+                pos = rng.choice(tops)
                 new = lines[:pos] + stmt.split("\n") + lines[pos:]
                 cases.append(("\n".join(new) + "\n", kind))
         cli_budget = 40 if tier == "quick" else 600
@@ -90,7 +102,7 @@ def run(ctx):
                     s.violate(inp, "no success announcement", rep, "'Success !' is announced for a failed assembly")
                 # the fault must make the in-memory assembly fail (otherwise the injection was not an error here)
             if kind != "none" and cls == "ok":
-                s.count("fault-not-reached")
+                s.violate({"fault": kind, "src": src}, "the assembly fails", "assembled (None returned)", "a source with a definite error at a reached top-level position is assembled and reported as success")
         s.sample({"fault": cases[1][1], "src": cases[1][0][:300]})
         return [s]
     finally:
